@@ -29,12 +29,13 @@ PROPS = {
             U("c01_optdev_seed", ["C01.V.optimal_deviations.seed"]),
             U("c01_regret_wrapper", ["C01.V.regret.utility", "C01.V.regret.player_one", "C01.V.regret.player_two"]),
             U("split_by", ["V.SplitsBy.next.partition"]),
+            U("lib_plumbing", ["C01.V.get_info.pairs_tables"]),
         ],
         kani_functions=["src/lib.rs :: impl StrategiesInfo / fn player_utility, player_regret, regret", "src/lib.rs :: impl PlayerNum / fn ind, ind_mut"],
         trusted_base=[FLOAT_IDEAL, WF_GAME],
         not_decided=["global order argument of optimal_deviations (every infoset resolved after all later infosets of the same player): only the per-step contract is proved",
                      "the std adapter chain around the seeding predicate of optimal_deviations (enumerate/filter/map/collect, pinned textually) and the work-list arguments that compose the per-step contracts of its two passes",
-                     "Strategies::get_info composition of split_by with collect (read)"],
+                     "the std `collect` of the split_by iterator in Strategies::get_info (which vector is cut along which infosets and handed over in which order IS decided: C01.V.get_info.pairs_tables)"],
     ),
     "C02": dict(
         level="proof",
@@ -206,6 +207,7 @@ PROPS = {
                    "themselves are std code pinned textually and exercised by bounded Kani harnesses.",
         verus=[U("c13_named_iter", ["C13.V.NamedStrategyIter.exact_size", "C13.V.NamedStrategyIter.kth_block"]),
                U("c13_action_iter_predicates", ["C13.V.action_iter.next_lists_positive", "C13.V.action_iter.len_counts_positive"]),
+               U("lib_plumbing", ["C13.V.as_named.pairs_tables", "C14.V.from_named.pairs_tables", "C14.V.from_named_eq.pairs_tables"]),
                U("c18_truncate_sums_to_one", ["C18.V.truncate.sums_to_one (the named view of a truncated profile still sums to one)"]),
                U("c18_truncate_block", ["C18.V.truncate.rescale"]), U("c18_truncate_whole", ["C18.V.truncate.whole"]),
                U("c14_normalise", ["C14.V.normalise.weight_over_total (importing the view back yields the profile)"]),
@@ -245,6 +247,7 @@ PROPS = {
                    "Kani infeasible, Verus rejects the iterator chains). Normalised values beyond the support are "
                    "not compared (float division miters exhaust CBMC). Legal weights above 1e300 excluded (total overflow).",
         verus=[U("c14_normalise", ["C14.V.normalise.weight_over_total", "C14.V.normalise.uninitialized"]), U("split_by", ["V.SplitsByMut.next.partition"]),
+               U("lib_plumbing", ["C14.V.from_named.pairs_tables", "C14.V.from_named_eq.pairs_tables"]),
                U("c14_hash_validate", ["C14.V.hash_import.rejects_bad_weight", "C14.V.hash_import.rejects_unknown_action", "C14.V.hash_import.stores_weight",
                                        "C14.V.hash_import.single_rejects_other_action", "C14.V.hash_import.single_rejects_bad_weight", "C14.V.hash_import.single_marks_seen",
                                        "C14.V.hash_import.dense_index"])],
